@@ -35,7 +35,9 @@ func sizeIs(err error) []string {
 func sizeTyped(err error) bool {
 	var a *size.ParseError[string]
 	var b *size.ParseError[[]byte]
-	return errors.As(err, &a) || errors.As(err, &b)
+	var c *size.ParseError[myStr]
+	var d *size.ParseError[myBytes]
+	return errors.As(err, &a) || errors.As(err, &b) || errors.As(err, &c) || errors.As(err, &d)
 }
 
 // digits of a uint64 / decimal text as values 0..9
@@ -167,9 +169,14 @@ func init() {
 		var s size.Size
 		var err error
 		p := try(func() {
-			if str(e["T"]) == "s" {
+			switch str(e["T"]) {
+			case "s":
 				s, err = size.DefaultParser(string(in), rule)
-			} else {
+			case "S":
+				s, err = size.DefaultParser(myStr(in), rule)
+			case "B":
+				s, err = size.DefaultParser(myBytes(reused(in)), rule)
+			default:
 				s, err = size.DefaultParser(reused(in), rule)
 			}
 		})
